@@ -23,9 +23,9 @@ import (
 // does not exist in the reference (new packet type, new protocol version) is not judged.
 
 type wDFA struct {
-	N   int        `json:"n"`   // states 0..N-1, 0 is the start; N == 0 is the empty language
-	Acc []int      `json:"acc"` // accepting states
-	T   [][3]any   `json:"t"`   // [from, token, to], sorted
+	N   int      `json:"n"`   // states 0..N-1, 0 is the start; N == 0 is the empty language
+	Acc []int    `json:"acc"` // accepting states
+	T   [][3]any `json:"t"`   // [from, token, to], sorted
 	tr  []map[string]int
 	acc map[int]bool
 }
@@ -296,7 +296,7 @@ func dfaDifference(a, b *wDFA) (seq []string, onlyIn string) {
 }
 
 type wireGolden struct {
-	DFAs  []*wDFA              `json:"dfas"`
+	DFAs  []*wDFA               `json:"dfas"`
 	Types map[string][][3]int64 `json:"types"` // "pkg.Type" -> runs [fromProto, toProto, dfa index]
 }
 
